@@ -19,9 +19,9 @@ KANI_ASSUME = [
 ]
 
 PROPS = {
-    'C13': dict(level='proof', level_text='every comparison kernel obligation is a loop-free Kani proof over the full scalar domains (i64, finite f64, char, variant pairs, inclusive bits): complete, not bounded; string/list/map payloads are bounded units counted separately', level_note='regex engine trusted (stubbed); format! stubbed; string order, list / map equality, `in [..]` and Float PartialEq are NOT decided (their units did not finish)', vgroups=[], kunits=['U-cmp-int', 'U-cmp-float', 'U-cmp-char-null-bool', 'U-cmp-types', 'U-peq-same', 'U-within', 'U-unary-op-k'],
-                assumptions=KANI_ASSUME,
-                not_under_contract=['regex engine (fancy_regex) - trusted', 'string comparison (lexicographic order): its Kani unit did not finish', 'list / map equality: Kani cannot build IndexMap', 'impl PartialEq for PathAwareValue vs compare_eq beyond same-type Null/Bool/Int/Char pairs (Float pairs and cross-type pairs time out)', '`X in [v1..vn]` (operators.rs)'],
+    'C13': dict(level='proof', level_text='two layers. Verus (unbounded, all variant pairs): compare_values orders exactly the same-type ordered scalars and is NotComparable otherwise, compare_lt/le/gt/ge answer from that one Ordering (trichotomy, <= iff < or ==, mixed types satisfy nothing: lemma L-cmp), impl PartialEq = documented special pairs or Ordering::Equal; std comparisons are uninterpreted there. Kani (loop-free, complete over the full scalar domains i64, finite f64, char, variant pairs, inclusive bits): the numeric content of those comparisons and of is_within on the real code', level_note='regex engine trusted (stubbed); format! stubbed; string order (std), list / map structural equality (compare_eq loops, derived PartialEq of MapValue / Vec) and `in [..]` list scanning in operators.rs are NOT decided', vgroups=['compare'], kunits=['U-cmp-int', 'U-cmp-float', 'U-cmp-char-null-bool', 'U-cmp-types', 'U-peq-same', 'U-within', 'U-unary-op-k'],
+                assumptions=COMMON_ASSUME + KANI_ASSUME + ['ASSUMED uninterpreted models (verus/prelude_cmp.rs) of Ord::cmp on String / char, f64::partial_cmp, `==` on String / Vec<PathAwareValue> / MapValue, WithinRange::is_within, fancy_regex::Regex::{new, is_match}; is_match on a compiled expression is assumed not to fail (the repository comment says so)', 'PathAwareValue::type_info assumed (message text only)'],
+                not_under_contract=['regex engine (fancy_regex) - trusted', 'string comparison (lexicographic order): std, its Kani unit did not finish', 'compare_eq on lists / maps (iterator zip / IndexMap loops: outside the extractable subset; Kani cannot build IndexMap)', 'derived PartialEq of MapValue / Vec<PathAwareValue>', '`X in [v1..vn]` (operators.rs)'],
                 explanation=''),
     'C01': dict(level='proof', vgroups=['eval', 'eval_blocks', 'eval_disp', 'index'],
                 kunits=['U-cnf', 'U-unary-special', 'U-unary-wiring', 'U-cmp-int', 'U-cmp-float', 'U-cmp-char-null-bool', 'U-cmp-types', 'U-within'],
